@@ -88,6 +88,8 @@ def ops_for(ref, total_cap):
             for name, t in add_times(ref):
                 ops.append(('add', r, name))
     ops += [('copy',), ('clear_copy',)]
+    # hand-over of a queue to a run that starts at another time: the pending slots keep their order and distance
+    ops += [('retime', 'same'), ('retime', 'later'), ('retime', 'earlier')]
     if 0 < pend <= 3:
         for coins in itertools.product((0, 1), repeat=pend):
             for part in (0, 1):
@@ -115,6 +117,14 @@ def apply(q, ref, op, c, shape, hist):
         t = dict(add_times(ref))[op[2]]
         q.py_add_reaction(t, op[1], 1.0)
         ref.add(t, op[1])
+        return q, ref
+    if op[0] == 'retime':
+        now = ref.next_time() - ref.dt
+        t = {'same': now, 'later': now + 2.5, 'earlier': now - 1.0}[op[1]]
+        q.py_set_current_time(t)
+        ref.t0 = t + ref.dt - ref.nxt * ref.dt          # the earliest pending slot is now due at t + dt
+        if q.py_get_next_queue_time() != ref.next_time():
+            bad('time', 'after set_current_time(%s) the next slot is due at %s, expected %s' % (t, q.py_get_next_queue_time(), ref.next_time()))
         return q, ref
     if op[0] in ('copy', 'clear_copy'):
         q2 = q.py_copy() if op[0] == 'copy' else q.py_clear_copy()
@@ -240,7 +250,7 @@ def run(ctx):
     ctx.bounds = dict(history_length=L, pending_cap=cap, shapes=len(sh))
     ctx.rule = ('E3: explicit-state BFS on the real ArrayDelayQueue for every shape (1..2 reactions, 2..4 slots, dt in {0.25,0.5,1}, start '
                 'time in {0,2.5,-1}, constructed or re-timed; plus larger shapes (3 reactions x 5 slots, 2 x 7; thorough also 4 x 6, 3 x 9, 5 x 3) to a length 1-2 shorter); operations add(r, time) with time 2 and 0.3 slots in the past, on every '
-                'slot, 0.3 dt before/after every slot, 1 and 3 slots, 2^32 slots and infinitely far beyond the horizon; read-and-advance; copy; clear_copy; '
+                'slot, 0.3 dt before/after every slot, 1 and 3 slots, 2^32 slots and infinitely far beyond the horizon; read-and-advance; copy; clear_copy; set_current_time (same, later, earlier) on the queue as it stands; '
                 'binomial_partition with every coin sequence (continuing on either part). After every transition the real queue is '
                 'drained and compared slot by slot (content and slot times) with the reference. States are merged on (pending counts '
                 'per relative slot and reaction, ring position); every shape counts as one non-trivial case.')
